@@ -275,7 +275,100 @@ func plantFaults(t *rapid.T, set *ymodel.Set) []string {
 	k := rapid.IntRange(1, 3).Draw(t, "faults")
 	for i := 0; i < k; i++ {
 		m := set.Modules[rapid.IntRange(0, len(set.Modules)-1).Draw(t, "fault-module")]
-		switch rapid.IntRange(0, 3).Draw(t, "fault-kind") {
+		switch rapid.IntRange(0, 6).Draw(t, "fault-kind") {
+		case 4: // typedef cycle whose links run directly, through a union or through a union in a union
+			k := rapid.IntRange(2, 3).Draw(t, "cycle-len")
+			for j := 0; j < k; j++ {
+				next := &ymodel.TypeRef{Name: fmt.Sprintf("cyc%d-%d", i, (j+1)%k)}
+				switch rapid.IntRange(0, 2).Draw(t, "link") {
+				case 1:
+					next = &ymodel.TypeRef{Name: "union", Union: []*ymodel.TypeRef{{Name: "string"}, next}}
+				case 2:
+					next = &ymodel.TypeRef{Name: "union", Union: []*ymodel.TypeRef{{Name: "union", Union: []*ymodel.TypeRef{next, {Name: "int8"}}}, {Name: "string"}}}
+				}
+				m.Typedefs = append(m.Typedefs, &ymodel.Typedef{Name: fmt.Sprintf("cyc%d-%d", i, j), Type: next})
+			}
+			if rapid.Bool().Draw(t, "cycle-user") {
+				m.Nodes = append(m.Nodes, &ymodel.Node{Kind: ymodel.KLeaf, Name: fmt.Sprintf("cycl%d", i), Type: &ymodel.TypeRef{Name: fmt.Sprintf("cyc%d-%d", i, rapid.IntRange(0, k-1).Draw(t, "cycle-entry"))}})
+			}
+			feats = append(feats, "typedef-cycle")
+		case 5: // grouping cycle, used from the same and from other modules
+			k := rapid.IntRange(1, 3).Draw(t, "gcycle-len")
+			owner := set.Owner(m)
+			for j := 0; j < k; j++ {
+				owner.Groupings = append(owner.Groupings, &ymodel.Grouping{Name: fmt.Sprintf("gcyc%d-%d", i, j), Body: ymodel.Body{Nodes: []*ymodel.Node{
+					{Kind: ymodel.KLeaf, Name: fmt.Sprintf("gl%d", j), Type: &ymodel.TypeRef{Name: "string"}},
+					{Kind: ymodel.KUses, Name: fmt.Sprintf("gcyc%d-%d", i, (j+1)%k)}}}})
+			}
+			for _, x := range set.Modules {
+				entry := fmt.Sprintf("gcyc%d-%d", i, rapid.IntRange(0, k-1).Draw(t, "gcycle-entry"))
+				if set.Owner(x) == owner {
+					if rapid.Bool().Draw(t, "gcycle-own-user") {
+						x.Nodes = append(x.Nodes, &ymodel.Node{Kind: ymodel.KContainer, Name: fmt.Sprintf("gcu%d", i), Body: ymodel.Body{Nodes: []*ymodel.Node{{Kind: ymodel.KUses, Name: entry}}}})
+					}
+					continue
+				}
+				for _, im := range x.Imports {
+					if im.Module == owner.Name && rapid.Bool().Draw(t, "gcycle-foreign-user") {
+						x.Nodes = append(x.Nodes, &ymodel.Node{Kind: ymodel.KContainer, Name: fmt.Sprintf("gcu%d", i), Body: ymodel.Body{Nodes: []*ymodel.Node{{Kind: ymodel.KUses, Name: im.Prefix + ":" + entry}}}})
+					}
+				}
+			}
+			feats = append(feats, "grouping-cycle")
+		case 6: // augments that can only be applied late (their path names the implicit case of a shorthand
+			// choice member), colliding with or depending on one another, from two modules where possible
+			var cands []schema.Target
+			for _, tg := range schema.AllNodes(set, trees, m) {
+				if !lateTarget(tg, set, trees, m) {
+					continue
+				}
+				if tg.Node.Kind == ymodel.KContainer || tg.Node.Kind == ymodel.KList || tg.Node.Kind == ymodel.KCase {
+					cands = append(cands, tg)
+				}
+			}
+			if len(cands) == 0 {
+				continue
+			}
+			tg := cands[rapid.IntRange(0, len(cands)-1).Draw(t, "late-target")]
+			other, otherPath := m, tg.Path
+			for _, x := range set.Modules {
+				if x == m {
+					continue
+				}
+				for _, y := range schema.AllNodes(set, trees, x) {
+					if y.Node == tg.Node {
+						other, otherPath = x, y.Path
+					}
+				}
+			}
+			mk := func(name string, kids ...*ymodel.Node) *ymodel.Node {
+				if len(kids) == 0 {
+					return &ymodel.Node{Kind: ymodel.KLeaf, Name: name, Type: &ymodel.TypeRef{Name: "string"}}
+				}
+				return &ymodel.Node{Kind: ymodel.KContainer, Name: name, Body: ymodel.Body{Nodes: kids}}
+			}
+			if rapid.Bool().Draw(t, "late-collide") {
+				m.Augments = append(m.Augments, &ymodel.Augment{Path: tg.Path, Body: ymodel.Body{Nodes: []*ymodel.Node{mk(fmt.Sprintf("late%d", i)), mk(fmt.Sprintf("mine%d", i))}}})
+				other.Augments = append(other.Augments, &ymodel.Augment{Path: otherPath, Body: ymodel.Body{Nodes: []*ymodel.Node{mk(fmt.Sprintf("late%d", i), mk("x")), mk(fmt.Sprintf("yours%d", i))}}})
+				feats = append(feats, "late-augment-collision")
+			} else {
+				// other adds a container, m augments that container
+				other.Augments = append(other.Augments, &ymodel.Augment{Path: otherPath, Body: ymodel.Body{Nodes: []*ymodel.Node{mk(fmt.Sprintf("latec%d", i), mk("x"))}}})
+				step := ""
+				if set.Owner(other) == set.Owner(m) {
+					step = m.Prefix
+				} else {
+					for _, im := range m.Imports {
+						if o := set.Owner(other); o != nil && im.Module == o.Name {
+							step = im.Prefix
+						}
+					}
+				}
+				if step != "" {
+					m.Augments = append(m.Augments, &ymodel.Augment{Path: tg.Path + "/" + step + ":" + fmt.Sprintf("latec%d", i), Body: ymodel.Body{Nodes: []*ymodel.Node{mk(fmt.Sprintf("dep%d", i))}}})
+				}
+				feats = append(feats, "late-augment-chain")
+			}
 		case 0: // unknown types in a module
 			m.Nodes = append(m.Nodes, &ymodel.Node{Kind: ymodel.KLeaf, Name: fmt.Sprintf("badl%d", i), Type: &ymodel.TypeRef{Name: "nosuch"}})
 			m.Typedefs = append(m.Typedefs, &ymodel.Typedef{Name: fmt.Sprintf("badt%d", i), Type: &ymodel.TypeRef{Name: "uint8", Range: "5..1"}})
@@ -319,6 +412,16 @@ func plantFaults(t *rapid.T, set *ymodel.Set) []string {
 	return feats
 }
 
+// lateTarget: the target's path passes through (or ends at) an implicit case.
+func lateTarget(tg schema.Target, set *ymodel.Set, trees map[string]*yref.Tree, from *ymodel.Module) bool {
+	for _, x := range schema.Targets(set, trees, from) {
+		if x.Node == tg.Node {
+			return false
+		}
+	}
+	return true
+}
+
 // genRevisions: modules of one name with and without revisions plus importers (the bare name and undated
 // imports must bind to the same module in every load order).
 func genRevisions(t *rapid.T) Case {
@@ -341,6 +444,7 @@ func genRevisions(t *rapid.T) Case {
 		// each version defines t differently and has its own leaf, so a different binding shows
 		c.Sources = append(c.Sources, ymodel.Source{Name: name, Text: fmt.Sprintf("module foo { namespace \"urn:foo\"; prefix f;%s typedef t { type %s; } container c%d { leaf own { type t; } } }", rev, kinds[i], i)})
 	}
+	c.CLI = rapid.IntRange(0, 5).Draw(t, "cli") == 0
 	c.Sources = append(c.Sources, ymodel.Source{Name: "user.yang", Text: "module user { namespace \"urn:user\"; prefix u; import foo { prefix f; } leaf l { type f:t; } }"})
 	if rapid.Bool().Draw(t, "dated-importer") {
 		for d := range seen {
